@@ -310,7 +310,7 @@ def h_oversize(ctx, total):
   ctx.witness('done')
 
 
-def h_big_stats(ctx, nact):
+def h_big_stats(ctx, nact, nflows=2):
   """two installed flows with `nact` output actions each; a flow statistics request is answered - for 4100 actions each the two descriptions
   (32888 bytes each) do not fit into one message, so the answer has to come in parts (OFPSF_REPLY_MORE) -, then the barrier reply"""
   env.get_core()
@@ -320,14 +320,14 @@ def h_big_stats(ctx, nact):
   conn = swm.OFConnection(w); sw.set_connection(conn)
   x1 = ctx.int('xid_stats', 0, 0xffffffff); x2 = ctx.int('xid_barrier', 0, 0xffffffff)
   w._push_receive_data(of.ofp_hello().pack()); w.send_buf = b''
-  for k in (1, 2):
+  for k in range(1, nflows + 1):
     fm = of.ofp_flow_mod(xid=5, priority=7, actions=[of.ofp_action_output(port=1)] * nact); fm.match.in_port = k
     w._push_receive_data(fm.pack())
   st = of.ofp_stats_request(body=of.ofp_flow_stats_request()); st.xid = x1; w._push_receive_data(st.pack())
   b = of.ofp_barrier_request(); b.xid = x2; w._push_receive_data(b.pack())
   out = w.send_buf; msgs = []; off = 0
   unpackers = swm.make_type_to_unpacker_table()
-  while off < len(out) and len(msgs) < 6:
+  while off < len(out) and len(msgs) < 8:
     ln = (out[off + 2] << 8) | out[off + 3]
     msgs.append(unpackers[int(out[off + 1])](out[off:off + int(ln)], 0)[1]); off += int(ln)
   tag = ''
@@ -337,7 +337,7 @@ def h_big_stats(ctx, nact):
   parts = [m for m in msgs[:-1] if isinstance(m, of.ofp_stats_reply)]
   if parts:
     ctx.check('every part but the last says that more follows', all((m.flags & 1) == 1 for m in parts[:-1]) and (parts[-1].flags & 1) == 0)
-    ctx.check('the parts together describe both flows', sorted(e.match.in_port for m in parts for e in m.body) == [1, 2] and all(len(e.actions) == nact for m in parts for e in m.body))
+    ctx.check('the parts together describe every flow once', sorted(e.match.in_port for m in parts for e in m.body) == list(range(1, nflows + 1)) and all(len(e.actions) == nact for m in parts for e in m.body))
     if len(parts) > 1: ctx.witness('multipart')
   ctx.witness('done')
 
@@ -351,7 +351,7 @@ def obligations(tier):
                      desc='flow table at capacity: replacing ADD is silent, an ADD too many gets ALL_TABLES_FULL, barrier and statistics replies reflect it'),
           Obligation('O3_oversize', h_oversize, [dict(total=t) for t in (200, 65523, 65524, 65535)], witnesses=('done',),
                      desc='a rejected request too long to be quoted whole in its error: one error with its xid, a prefix quoted'),
-          Obligation('O4_big_stats', h_big_stats, [dict(nact=n) for n in (100, 4000, 4100)], witnesses=('done', 'multipart'),
+          Obligation('O4_big_stats', h_big_stats, [dict(nact=n) for n in (100, 4000, 4100)] + [dict(nact=5000, nflows=3), dict(nact=2000, nflows=5)], witnesses=('done', 'multipart'),
                      desc='flow statistics for an entry whose description does not fit into one message'),
           Obligation('O1_sequences', h_seq, [dict(plan=p) for p in ps], witnesses=('done', 'pipelined'), max_decisions=20000,
                      desc='request sequences through the byte-level connection: one reply/error per request, in order, with xid and specified content')]
